@@ -30,7 +30,8 @@ PID = "C15"
 SKIP_FIELDS = {"relative", "creation_date", "directory"}
 # options whose value space is constrained by other options (kept to safe values)
 SAFE_STR = {
-    "docmark": ["!", "@"], "predocmark": [">", "^"], "docmark_alt": ["*", "%"], "predocmark_alt": ["|", "~"],
+    # (an empty value switches a marker off)
+    "docmark": ["!", "@"], "predocmark": [">", "^", ""], "docmark_alt": ["*", "%", ""], "predocmark_alt": ["|", "~", ""],
     "encoding": ["utf-8", "latin-1"], "sort": ["src", "alpha", "permission-alpha"],
     "preprocessor": ["cpp -traditional-cpp -E", "pcpp -D__GFORTRAN__ --passthru-comments"],
     "license": ["by", "mit", "custom text"], "doc_license": ["gfdl", ""],
@@ -90,7 +91,7 @@ def values_for(name, cls, rng):
     if base == "str":
         if name in ("summary", "author_description", "project_url", "privacy_policy_url", "terms_of_service_url"):
             return ["abc", "two words"] + (["first line\nNote: second line\nhttps://example.org/third"] if name in ("summary", "author_description") else ["https://example.org/a/b"])
-        return ["abc", "two words", "x_y-z.1", "Caps And 123", '3.5" floppy tools', "it's 'quoted' \\ back"]
+        return ["abc", "two words", "x_y-z.1", "Caps And 123", '3.5" floppy tools', "it's 'quoted' \\ back", ""]
     if base == "path":
         vals = ["sub/dir", "./a/../b", "plain", "/abs/olute/p", "$VF_ABS_ROOT/envp", "${VF_ABS_ROOT}/envq/r", "$VF_REL_PART/envs"]  # environment variables are expanded first
         # the user's own file or directory named like the built-in default (favicon.png next to the project file ...)
@@ -202,6 +203,8 @@ def toml_literal(name, cls, v):
     if base in ("str", "path"):
         return json.dumps(v)
     if base in ("list_str", "list_path"):
+        if len(v) == 1 and len(name) % 2 == 0:
+            return json.dumps(v[0])  # a single value may be written without the brackets
         return "[" + ", ".join(json.dumps(x) for x in v) + "]"
     if base == "dict_str":
         return "{ " + ", ".join(f"{json.dumps(k)} = {json.dumps(val)}" for k, val in v.items()) + " }"
